@@ -215,6 +215,11 @@ def remote_result(ob: Obligation) -> dict:
          'assumptions_used': list(ob.assumptions_used), 'source': ob.source, 'verdict': res.verdict,
          'backend': res.backend, 'ms': res.ms, 'solver_output': res.solver_output, 'model': res.model,
          'vacuous': res.vacuous, 'finding': ob.finding, 'restricted_verdict': None}
+    if res.verdict == 'refuted' and ob.replay is not None:
+        try:
+            d['replay'] = ob.replay(res) or {}
+        except Exception as exc:   # replay harness failure is not a counterexample
+            d['replay'] = {'reproduced': False, 'replay_error': f'{type(exc).__name__}: {exc}'}
     if res.verdict == 'refuted' and ob.finding and ob.restricted is not None:
         r2 = discharge(Obligation(ob.name + ':restricted', ob.prop, ob.kind,
                                   list(ob.assumptions) + list(ob.restricted), ob.goal, timeout_ms=ob.timeout_ms,
@@ -312,7 +317,8 @@ class Session:
         """Account for an obligation discharged in a worker process (z3 terms do not cross processes):
         d = remote_result(...) of that obligation."""
         ob = Obligation(d['name'], d['prop'], d['kind'], detail=d['detail'], functions=tuple(d['functions']),
-                        assumptions_used=tuple(d['assumptions_used']), source=d['source'])
+                        assumptions_used=tuple(d['assumptions_used']), source=d['source'],
+                        replay=(lambda res, rep=d.get('replay'): rep) if d.get('replay') is not None else None)
         res = Result(ob, d['verdict'], d['backend'], d['ms'], model=d['model'], solver_output=d['solver_output'],
                      vacuous=d['vacuous'])
         self.functions.update(ob.functions)
